@@ -1012,7 +1012,14 @@ func c04IdenticalCalls(c *fw.C, n *simnet.Node, r *rand.Rand, users []*wallet.Ke
 	var id types.Hash
 	r.Read(id[:])
 	to, zts, amt, data, name := types.AcceleratorContract, types.ZnnTokenStandard, big.NewInt(int64(1+r.Intn(3))*z), definition.ABICommon.PackMethodPanic(definition.DonateMethodName), "accelerator.Donate"
-	switch r.Intn(9) {
+	switch r.Intn(12) {
+	case 9, 10, 11:
+		// the maintenance call anybody may send: several of them confirmed by one momentum (what pillars racing for
+		// the epoch update produce) are inbox entries like any other
+		cts := []types.Address{types.PillarContract, types.StakeContract, types.SentinelContract, types.LiquidityContract, types.AcceleratorContract}
+		k := r.Intn(len(cts))
+		to = cts[k]
+		zts, amt, data, name = types.ZnnTokenStandard, big.NewInt(0), definition.ABICommon.PackMethodPanic(definition.UpdateMethodName), []string{"pillar", "stake", "sentinel", "liquidity", "accelerator"}[k]+".Update"
 	case 0:
 		zts = types.QsrTokenStandard
 	case 1:
